@@ -8,7 +8,7 @@
     decimal with 13 000 digits of precision) and read back (FromStr) as an equal number.
  L  FEEL literals of 1..34 significant digits with the point at every position (leading zeros, `.5` forms) through parse + evaluate: exactly
     the value written.
- X  xsd:integer / xsd:decimal / xsd:double input texts (signs, leading zeros, exponent forms for double): exactly the value written.
+ X  xsd:integer / xsd:decimal / xsd:double input texts (signs, leading zeros, no digits before or after the point, exponent forms for double): exactly the value written.
 
 prints `numtextdiff cases=N failures=M` and a line `FAIL ...` per failure; exit 0 (ran) / 2 (could not run)."""
 import decimal
@@ -83,6 +83,10 @@ def cases(size, seed):
                     out.append('X double %s%s.%sE%d' % (sg, digs[:pt], digs[pt:], rnd.randint(-300, 300)))
             out.append('X decimal %s0.%s' % (sg, digs))
             out.append('X double %s%se%d' % (sg, digs, rnd.randint(-30, 30)))
+    # the lexical space of xsd:decimal / xsd:double allows no digits on one side of the point
+    for t in ('.5', '-.5', '+.125', '5.', '-120.', '+7.', '.000025', '0.', '-0.5', '00.50'):
+        out.append('X decimal %s' % t)
+        out.append('X double %s' % t)
     # integers written with more than 34 digits of which at most 34 are significant (trailing zeros): exactly representable, exactly the value written
     for (head, zeros) in (('1', 34), ('1', 40), ('-25', 40), ('1234567890123456789012345678901234', 3), ('9999999999999999999999999999999999', 10), ('-7', 100), ('5', 6111)):
         for kind in ('integer', 'decimal', 'double'):
